@@ -305,11 +305,17 @@ func deepCopyInto(dst, src reflect.Value) {
 		if src.IsNil() {
 			return
 		}
-		s := reflect.MakeSlice(src.Type(), src.Len(), src.Cap())
-		for i := 0; i < src.Len(); i++ {
-			deepCopyInto(s.Index(i), src.Index(i))
+		// copy the elements beyond len as well: stale data in the spare capacity
+		// is part of what a re-used target looks like
+		full := src
+		if src.CanInterface() || src.CanAddr() {
+			full = src.Slice3(0, src.Cap(), src.Cap())
 		}
-		setAny(dst, s)
+		s := reflect.MakeSlice(src.Type(), full.Len(), full.Len())
+		for i := 0; i < full.Len(); i++ {
+			deepCopyInto(s.Index(i), full.Index(i))
+		}
+		setAny(dst, s.Slice3(0, src.Len(), full.Len()))
 	case reflect.Map:
 		if src.IsNil() {
 			return
